@@ -589,6 +589,7 @@ class PulseSequence:
         if control_matrix is None:
             control_matrix = self.get_control_matrix(omega, show_progressbar, cache_intermediates)
 
+        self._invalidate_frequency_dependent(omega)
         self.omega = omega
         if control_matrix.ndim == 4:
             # Pulse correlation control matrix
@@ -759,6 +760,7 @@ class PulseSequence:
         --------
         PulseSequence.get_filter_function : Getter method
         """
+        self._invalidate_frequency_dependent(omega)
         if filter_function is None:
             if order == 1:
                 if control_matrix is None:
@@ -987,8 +989,17 @@ class PulseSequence:
         if total_phases is None:
             total_phases = util.cexp(np.asarray(omega)*self.tau)
 
+        self._invalidate_frequency_dependent(omega)
         self.omega = omega
         self._total_phases = total_phases
+
+    def _invalidate_frequency_dependent(self, omega: Coefficients) -> None:
+        """
+        Remove all cached frequency-dependent attributes if they were
+        computed for frequencies different from *omega*.
+        """
+        if self.omega is not None and not np.array_equal(self.omega, omega):
+            self.cleanup('frequency dependent')
 
     @property
     def eigvals(self) -> ndarray:
